@@ -1551,6 +1551,37 @@ func (w *VerifWorld) Op(op string) string {
 		return w.opPeer(m)
 	case "msg":
 		return w.opMsg(m)
+	case "snubclose":
+		// The peer's own snub timer fires while the loop is busy, so that its report is pending; the connection
+		// ends at the same time. When the loop is free again it finds both events: whichever it takes first, the
+		// peer must end up closed and the loop must go on.
+		p := w.peers[verifAtoi(m["p"], -1)]
+		if p == nil || p.pe == nil {
+			return "skipped:no-peer"
+		}
+		if p.pe.Closed {
+			return "skipped:peer-closed " + w.observeAfterSettle()
+		}
+		hold := make(chan Stats) // unbuffered: the loop blocks in its answer until it is taken
+		select {
+		case w.t.statsCommandC <- statsRequest{Response: hold}:
+		case <-time.After(5 * time.Second):
+			w.dead = true
+			return "hang"
+		}
+		p.pe.VerifFireSnubTimer()
+		time.Sleep(2 * time.Millisecond) // the peer's goroutine is now blocked handing over its report
+		sent := make(chan struct{})
+		go func() {
+			select {
+			case w.t.peerDisconnectedC <- p.pe:
+			case <-time.After(5 * time.Second):
+			}
+			close(sent)
+		}()
+		time.Sleep(time.Millisecond)
+		<-hold // the loop is free again
+		<-sent
 	case "disconnect":
 		p := w.peers[verifAtoi(m["p"], -1)]
 		if p == nil || p.pe == nil {
